@@ -4,7 +4,9 @@ go 1.23
 
 require (
 	github.com/kjx98/crc16 v0.0.0-20190915014410-d407ba22e1b5
+	github.com/nats-io/nats.go v1.31.0
 	github.com/simpleiot/simpleiot v0.0.0
+	google.golang.org/protobuf v1.27.1
 )
 
 require (
@@ -31,7 +33,6 @@ require (
 	github.com/mattn/go-colorable v0.1.13 // indirect
 	github.com/mattn/go-isatty v0.0.19 // indirect
 	github.com/miekg/dns v1.1.55 // indirect
-	github.com/nats-io/nats.go v1.31.0 // indirect
 	github.com/nats-io/nkeys v0.4.6 // indirect
 	github.com/nats-io/nuid v1.0.1 // indirect
 	github.com/oklog/run v1.1.0 // indirect
@@ -49,7 +50,6 @@ require (
 	golang.org/x/sync v0.3.0 // indirect
 	golang.org/x/sys v0.13.0 // indirect
 	golang.org/x/xerrors v0.0.0-20220907171357-04be3eba64a2 // indirect
-	google.golang.org/protobuf v1.27.1 // indirect
 	gopkg.in/yaml.v2 v2.4.0 // indirect
 )
 
